@@ -104,13 +104,19 @@ Fixpoint fits_lims (lims : list (option (Z * Z))) (vs : list Z) : bool :=
   | _, _ => true
   end.
 
+(** end of write_pixels (fix 2245e87): when no record reached the datasets (no chunk at all, or only empty
+    chunks) the preallocated rows are dropped, so that the column length equals nnz *)
+Definition finish_pixels (st : wstate) : wstate :=
+  let '(stored, nnz, total) := st in
+  if nnz =? 0 then (resize dflt stored 0, nnz, total) else st.
+
 (** ** _create.create : what is observable of the result through pixels/info *)
 Record cool := { c_rows : list rowT; c_nnz : Z; c_sum : Z; c_symm : bool; c_nbins : Z }.
 
 Definition max_size (n : Z) (symm : bool) : Z := if symm then n * (n - 1) / 2 + n else n * n.
 (** prepare_pixels: datasets are created with init_size = min(5 * n_bins, max_size) fill values; they are
-    only cut to size by the first resize in write_pixels (so an iterator that yields no chunk at all
-    leaves init_size stale fill rows behind nnz = 0) *)
+    cut to size by the first resize in write_pixels (an iterator that yields no chunk at all would leave
+    init_size stale fill rows behind nnz = 0: repaired defect D21, see [finish_pixels]) *)
 Definition init_state (n : Z) (symm : bool) : wstate :=
   (repeat dflt (Z.to_nat (Z.min (5 * n) (max_size n symm))), 0, 0).
 
@@ -120,7 +126,8 @@ Definition create (n : Z) (symmetric_upper boundscheck triucheck dupcheck ensure
   match write_pixels (validate_pixels n boundscheck triucheck dupcheck ensure_sorted)
                      (max_size n symmetric_upper) (init_state n symmetric_upper) chunks with
   | inl e => inl e
-  | inr (stored, nnz, total) =>
+  | inr st =>
+      let '(stored, nnz, total) := finish_pixels st in
       inr {| c_rows := stored; c_nnz := nnz; c_sum := total; c_symm := symmetric_upper; c_nbins := n |}
   end.
 
